@@ -234,7 +234,7 @@ KeyRef key_rsa_fresh(int bits)
 	return k;
 }
 
-const int RSA_POOL_BITS[] = {512, 1024, 2040, 2047, 2048, 3072, 4096, 2056, 2184, 3584, 4088, 2052, 2050, 3076};
+const int RSA_POOL_BITS[] = {512, 1024, 2040, 2047, 2048, 3072, 4096, 2056, 2184, 3584, 4088, 2052, 2050, 3076, 12288};
 const int N_RSA_POOL_BITS = (int)ARRAY_LEN(RSA_POOL_BITS);
 const int RSA_POOL_PER_SIZE = 2;
 
